@@ -273,7 +273,7 @@ def main():
     if t == 'thorough':
         names = {'_chunk_done', '_stream_files', '_chunk_producer', '_worker', '_download_chunk', '_write_chunk_ref'}
         line_codes = dsched.find_code(R.Repository.snapshot.__code__, names) + \
-            dsched.find_code(R.Repository.restore.__code__, names)
+            dsched.find_code(R.Repository.restore.__code__, names) + [R.Repository._write_file_part.__code__]
     plan = []
     for h in harnesses(t):
         bound = 1
